@@ -421,6 +421,10 @@ public:
           }
         });
         lambdaQueue.emplace_back(LE, ln);
+      } else if (auto* GS = dyn_cast<GotoStmt>(S)) {
+        J.attribute("label", GS->getLabel()->getNameAsString());
+      } else if (auto* LS = dyn_cast<LabelStmt>(S)) {
+        J.attribute("label", std::string(LS->getName()));
       } else if (auto* CE3 = dyn_cast<CastExpr>(S)) {
         J.attribute("cast", CE3->getCastKindName());
       } else if (auto* TE = dyn_cast<CXXTryStmt>(S)) {
